@@ -324,7 +324,7 @@ def gen_options(rng):
     }
 
 
-def mutate(rng, inp):
+def mutate(rng, inp, only=None):
     """malformed stream: one structural mutation of a valid-looking input"""
     m = copy.deepcopy(inp)
     kinds = ["drop_stop_id", "dup_stop_id", "dangling_precedes", "self_precedes", "cyclic_precedes", "bad_window", "reversed_window",
@@ -332,8 +332,9 @@ def mutate(rng, inp):
              "initial_unknown", "initial_twice", "dup_vehicle_id", "no_location", "string_speed", "zero_speed", "huge_numbers",
              "window_overlap", "start_level_gt_capacity", "mixing_bad", "dur_group_unknown", "matrix_frames_overlap", "max_stops_negative",
              "matrix_vehicle_ghost", "matrix_vehicle_missing", "matrix_vehicle_twice", "null_in_resource_map", "empty_duration_groups",
-             "null_scalars", "negative_matrix_entry", "negative_matrix_entry"]
-    k = rng.choice(kinds)
+             "null_scalars", "negative_matrix_entry", "negative_matrix_entry", "window_junk", "time_before_epoch", "huge_max_duration",
+             "far_future_window", "huge_penalty", "initial_foreign_alternate", "precedes_alternate", "stop_alt_same_id"]
+    k = only or rng.choice(kinds)
     st, ve = m["stops"], m["vehicles"]
     s0 = rng.choice(st) if st else None
     v0 = rng.choice(ve) if ve else None
@@ -417,6 +418,46 @@ def mutate(rng, inp):
                                (s0, "compatibility_attributes"), (s0, "mixing_items"), (v0, "speed"), (v0, "capacity"), (v0, "max_stops"),
                                (v0, "start_time"), (v0, "initial_stops"), (v0, "alternate_stops"), (s0, "quantity")])
         tgt[key] = None
+    elif k == "window_junk" and s0:
+        w = [rfc(T0), rfc(T0 + 3600)]
+        s0["start_time_window"] = rng.choice([[w, 5], [w, True], [5, w], [w, None], [[w], w], [w, "x"], [w, {}]])
+    elif k == "time_before_epoch" and s0 and v0:
+        old_t = "1969-12-31T23:00:00Z"
+        which = rng.choice(["target", "start", "end", "start_maxdur"])
+        if which == "target":
+            s0["target_arrival_time"] = old_t
+            s0["late_arrival_time_penalty"] = 1.0
+            s0["early_arrival_time_penalty"] = 1.0
+        elif which == "start":
+            v0["start_time"] = "1960-01-01T00:00:00Z"
+        elif which == "end":
+            v0["end_time"] = old_t
+        else:
+            v0["start_time"] = "1960-01-01T00:00:00Z"
+            v0["max_duration"] = 60
+    elif k == "huge_max_duration" and v0:
+        v0.setdefault("start_time", rfc(T0))
+        v0["max_duration"] = rng.choice([1099511627776, 2 ** 62, 9223372036, 6307200001])
+    elif k == "far_future_window" and s0:
+        y = rng.choice(["2262-04-12", "2300-01-01", "9999-01-01"])
+        s0["start_time_window"] = [y + "T00:00:00Z", y + "T01:00:00Z"]
+    elif k == "huge_penalty" and s0 and v0:
+        v0.setdefault("start_time", rfc(T0))
+        v0["end_time"] = rfc(T0 + 8 * 3600)
+        s0["target_arrival_time"] = rfc(T0)
+        s0["late_arrival_time_penalty"] = rng.choice([1e308, 1e300])
+    elif k == "initial_foreign_alternate" and len(ve) >= 2 and st:
+        m["alternate_stops"] = [{"id": "altx", "location": {"lon": 7.3, "lat": 51.3}}]
+        ve[0]["alternate_stops"] = ["altx"]
+        ve[1].pop("alternate_stops", None)
+        ve[1]["initial_stops"] = [{"id": "altx", "fixed": rng.random() < 0.5}]
+    elif k == "precedes_alternate" and len(st) >= 2:
+        m.setdefault("alternate_stops", [{"id": "altx", "location": {"lon": 7.3, "lat": 51.3}}])
+        ve[0]["alternate_stops"] = [m["alternate_stops"][0]["id"]]
+        st[-1]["precedes" if rng.random() < 0.5 else "succeeds"] = m["alternate_stops"][0]["id"]
+    elif k == "stop_alt_same_id" and st:
+        m["alternate_stops"] = [{"id": st[0]["id"], "location": {"lon": 7.3, "lat": 51.3}}]
+        ve[0]["alternate_stops"] = [st[0]["id"]]
     elif k == "negative_matrix_entry":
         # one negative entry in a duration matrix (plain, time-dependent default, a frame's own matrix, per-vehicle); inputs without a
         # matrix get a time-dependent one
